@@ -336,6 +336,10 @@ impl TransactionTracker {
         }
     }
 
+    pub(crate) fn lock_poisoned(&self) -> bool {
+        self.state.is_poisoned()
+    }
+
     pub(crate) fn any_savepoint_exists(&self) -> bool {
         !self.state.lock().unwrap().valid_savepoints.is_empty()
     }
